@@ -242,3 +242,27 @@ Definition dline_of_py (d : pydline) : dline :=
 Definition ddict_of_py (d : pyddict) : ddict :=
   {| dd_warnings := pdd_warnings d; dd_kernel := map dline_of_py (pdd_kernel d); dd_sum_press := map snd (pdd_sum_press d);
      dd_cp := pdd_cp d; dd_lcd := pdd_lcd d |}.
+
+(* ------------------------------------------------------------------ loopcarried_dependencies (the LCD list) *)
+(* sorted(list of str): insertion sort by the byte order of Model/Report.v's str_leb (any sort agrees on distinct keys) *)
+Fixpoint insert_str (x : string) (l : list string) : list string :=
+  match l with [] => [x] | h :: t => if str_leb x h then x :: l else h :: insert_str x t end.
+Definition py_sorted_str (l : list string) : list string := fold_right insert_str [] l.
+(* int(s) for a string of decimal digits (what the keys of the LCD dict start with); anything else: ValueError *)
+Fixpoint str_all_digits (s : string) : bool :=
+  match s with EmptyString => true | String c r => andb (match digit_val c with Some _ => true | None => false end) (str_all_digits r) end.
+Definition py_int_of_str (s : string) : res Z :=
+  match s with
+  | EmptyString => Err EValue
+  | _ => if str_all_digits s then match read_go s 0 false 0 with Some (v, _) => Ok v | None => Err EValue end else Err EValue
+  end.
+Fixpoint insert_pair {V} (p : string * V) (l : list (string * V)) : list (string * V) :=
+  match l with [] => [p] | h :: t => if str_leb (fst p) (fst h) then p :: l else h :: insert_pair p t end.
+Definition sort_pairs {V} (l : list (string * V)) : list (string * V) := fold_right insert_pair [] l.
+
+Definition lcd_head : string :=
+  nl ++ nl ++ "Loop-Carried Dependencies Analysis Report" ++ nl ++ "-----------------------------------------" ++ nl.
+(* one row of the list: the model's lcd_row w of the dependency whose root line is x *)
+Definition lcd_row_text (sep : string) (x : pyline) (w : lcd_row) : string :=
+  py_fmt_d 4 (lr_first w) ++ " " ++ sep ++ " " ++ py_fmt_f 4 1 (lr_lat w) ++ " " ++ sep ++ " "
+  ++ py_ljust 36 (py_strip (p_line x)) ++ sep ++ " " ++ py_str_list_Z (lr_members w) ++ nl.
